@@ -26,7 +26,7 @@ RULE = (
 ASSUMPTIONS = [
     "the current validator's random times are drawn from a harness-seeded generator (seeds enumerated)",
     "callable currents whose imbalance is confined to a window narrower than T/20 are outside the classes (the validator samples 100 times)",
-    "'inconsistent solver options' = the constraints SolverOptions.validate states",
+    "'inconsistent solver options' = the constraints SolverOptions.validate states, plus the values with which no run can be carried out at all: dt_init <= 0 or NaN (the clock never advances) and a save_every that is not a positive integer (no frame schedule)",
 ]
 MAGS = [1.0, 1e-3, 1e-6]
 TERMS = {"G1": ["source", "drain"], "G3": ["left", "right", "stem"], "G4": ["w", "e", "n", "s"]}
@@ -45,14 +45,16 @@ def floors(tier):
 
 def variants():
     v = []
-    v += [("currents_const", k) for k in ("one_extra", "all_same_sign", "missing_return", "one_less", "all_negative", "return_omitted")]
-    v += [("currents_callable", k) for k in ("always", "late", "growing", "always_negative", "late_negative", "early_with_thermalisation", "early")]
+    v += [("currents_const", k) for k in ("one_extra", "all_same_sign", "missing_return", "one_less", "all_negative", "return_omitted", "nan_one", "nan_all")]
+    v += [("currents_callable", k) for k in ("always", "late", "growing", "always_negative", "late_negative", "early_with_thermalisation", "early", "late_in_long_thermalisation")]
     v += [("unknown_terminal", "callable")]
     v += [("epsilon", k) for k in ("scalar", "spatial", "spatial_one_site", "time_dependent")]
     v += [("options", k) for k in ("dt_init_gt_dt_max", "terminal_psi_abs", "multiplier_low", "multiplier_high", "drag_zero", "drag_high", "step_size", "tolerance", "tolerance_zero", "step_size_negative", "multiplier_negative", "multiplier_one", "drag_negative",
-                                   "solver_name", "gpu", "cupy_without_gpu")]
+                                   "solver_name", "gpu", "cupy_without_gpu",
+                                   # values with which no run can be carried out at all (D33): the loop never advances / the frame schedule is undefined
+                                   "dt_init_zero", "dt_init_negative", "dt_init_negative_adaptive_off", "dt_init_nan", "save_every_zero", "save_every_negative", "save_every_fraction")]
     v += [("empty_terminal", k) for k in ("inside", "outside")]
-    v += [("seed", k) for k in ("geometry", "film_scaled", "layer", "units", "probe_points", "name", "no_terminals", "fewer_terminals", "extra_hole", "renamed_terminal")]
+    v += [("seed", k) for k in ("geometry", "film_scaled", "layer", "units", "probe_points", "name", "no_terminals", "fewer_terminals", "extra_hole", "renamed_terminal", "other_mesh_finer", "other_mesh_more_points", "other_mesh_smoothed")]
     # the ill-posed state is reached on objects that were valid, and were used successfully, before
     v += [("history", k) for k in ("terminal_moved_inside", "terminal_moved_outside", "terminal_points_set", "terminals_reassigned", "options_mutated",
                                    "currents_dict_mutated", "layer_changed_after_seed", "terminal_moved_after_seed",
@@ -76,7 +78,10 @@ def cases(tier, seed):
         if cls in ("polygon", "device") and (d != devs[0] or outp != outputs[0]):
             continue
         for m, sd in itertools.product(mags, sds):
-            out.append(dict(cls=cls, var=var, dev=d, mag=m, output=outp, rng=sd))
+            c = dict(cls=cls, var=var, dev=d, mag=m, output=outp, rng=sd)
+            if cls == "options" and var.startswith("dt_init_"):
+                c["timeout_s"] = 120  # accepted, such a run never ends (a rejected one answers within milliseconds)
+            out.append(c)
     if quick:
         # a nested output path (directories that do not exist yet) for one member of the classes that fail latest
         for cls, var in (("currents_const", "one_extra"), ("currents_callable", "late"), ("empty_terminal", "inside"), ("seed", "geometry"), ("seed", "extra_hole"),
@@ -92,6 +97,17 @@ def cases(tier, seed):
 # ---------------------------------------------------------------------------------------------
 def _eps_spatial(r, *, vectorized=True, top=1.0):
     return 1.0 - 0.2 * np.exp(-(r[:, 0] ** 2 + r[:, 1] ** 2)) * 0 + (top - 1.0) * np.exp(-((r[:, 0] - 0.3) ** 2 + (r[:, 1] + 0.2) ** 2) * 0.0)
+
+
+def _remeshed(name, factor, smooth, extra_points=0):
+    from .. import zoo
+
+    ref = zoo.device(name)
+    d = zoo.device(name, mesh=False, memo=False)
+    d.make_mesh(max_edge_length=zoo.DENSITY["coarse"] * factor, smooth=smooth, min_points=(len(ref.mesh.sites) + extra_points) if extra_points else None)
+    if d.mesh.sites.shape == ref.mesh.sites.shape and np.allclose(d.mesh.sites, ref.mesh.sites):
+        raise RuntimeError("harness: the re-meshed fixture has the mesh of the reference device")
+    return d
 
 
 def run_case(case):
@@ -122,7 +138,7 @@ def run_case(case):
         elif var == "eps_exactly_one":
             skw["disorder_epsilon"] = lambda r: 1.0
         elif var == "options_boundary":
-            okw.update(dt_init=1e-2, dt_max=1e-2, adaptive_time_step_multiplier=0.999, screening_step_drag=1.0, terminal_psi=1.0)
+            okw.update(dt_init=1e-2, dt_max=1e-2, adaptive_time_step_multiplier=0.999, screening_step_drag=1.0, terminal_psi=1.0, save_every=np.int64(1))
         elif var == "rounding_level_imbalance":
             cur = [0.1 * c for c in base_cur]  # 0.1+0.2-0.3 != 0 in binary
             skw["terminal_currents"] = dict(zip(names, cur))
@@ -144,6 +160,10 @@ def run_case(case):
             cur = [-abs(c) * m for c in cur]
         elif var == "missing_return":  # the return path carries a bit less
             cur[-1] *= 1 - m
+        if var == "nan_one":  # a sum that is not a number is not zero
+            cur[0] = float("nan")
+        elif var == "nan_all":
+            cur = [float("nan")] * len(cur)
         skw["terminal_currents"] = dict(zip(names, cur))
         if var == "return_omitted":
             # the dict does not mention the return terminal at all (an omitted terminal carries no current)
@@ -162,6 +182,9 @@ def run_case(case):
             elif var in ("early", "early_with_thermalisation"):
                 if t < 0.3 * T:  # a switch-on transient: the return path lags
                     cur[0] += m * abs(cur[0])
+            elif var == "late_in_long_thermalisation":
+                if t > 1.25 * T:  # only the thermalisation stage (skip_time = 2.5 T) reaches these times
+                    cur[0] += m * abs(cur[0])
             elif var == "late":
                 if t > T / 2:
                     cur[0] += m * abs(cur[0])
@@ -169,6 +192,8 @@ def run_case(case):
                 cur[0] += m * abs(cur[0]) * (t / T)
             return dict(zip(names, cur))
         skw["terminal_currents"] = f
+        if var == "late_in_long_thermalisation":
+            okw["skip_time"] = 2.5 * T
         if var == "early_with_thermalisation":
             okw["skip_time"] = T  # the same callable is evaluated from t = 0 in the thermalisation stage and again in the recorded stage
         make = solve_with(okw, skw)
@@ -210,6 +235,13 @@ def run_case(case):
             "solver_name": dict(sparse_solver="superlu2"),
             "gpu": dict(gpu=True),
             "cupy_without_gpu": dict(sparse_solver="cupy"),
+            "dt_init_zero": dict(dt_init=0.0),
+            "dt_init_negative": dict(dt_init=-1e-3),
+            "dt_init_negative_adaptive_off": dict(dt_init=-1e-3, adaptive=False),
+            "dt_init_nan": dict(dt_init=float("nan")),
+            "save_every_zero": dict(save_every=0),
+            "save_every_negative": dict(save_every=-3),
+            "save_every_fraction": dict(save_every=2.5),
         }[var]
         okw.update(bad)
         make = solve_with(okw, skw)
@@ -234,6 +266,10 @@ def run_case(case):
             "fewer_terminals": lambda: _variant(dev, terminals=sorted(dev.terminals, key=lambda t: t.name)[:1]),
             "extra_hole": lambda: _variant(dev, extra_hole=True),
             "renamed_terminal": lambda: _variant(dev, rename_terminal=True),
+            # the same device definition (Device.__eq__ holds), another mesh: the seed's arrays do not belong to the mesh that is simulated
+            "other_mesh_finer": lambda: zoo.device(case["dev"], density="fine", memo=False),
+            "other_mesh_more_points": lambda: _remeshed(case["dev"], 1.0, 0, extra_points=40),
+            "other_mesh_smoothed": lambda: _remeshed(case["dev"], 1.0, 3),
         }[var]()
         sd = tempfile.mkdtemp(prefix="seed-", dir=tempfile.gettempdir())
         o2 = tdgl.SolverOptions(solve_time=3e-3, dt_init=1e-3, dt_max=1e-2, output_file=os.path.join(sd, "seed.h5"), progress_interval=10**9,
